@@ -10,7 +10,7 @@ import codec
 import filesupport as fsup
 
 PROP = "C12"
-LEAN_MODULES = ["Props.C12"]
+LEAN_MODULES = ["Props.C12", "Props.Legacy"]
 RULE = (
     "case = (storage text|binary, 1-4 raw-storing block types with regular-expression begin/end patterns from a small "
     "AST (literals, '.', sets, concatenation, alternation, star, optional '^') that match mid-line and overlap so "
